@@ -221,14 +221,15 @@ def admit_collect(ctx: Ctx) -> None:
         nm = compare_norm(cmps[0])
         if nm is not None:
             op, l, r = nm
-            lc, rc = attr_chain(l), attr_chain(r)
+            # <X>.projected_mem > <X>.allowed_mem with the same base expression X (a name, an
+            # attribute chain or a subscript such as node["primitive_op"])
             if (
                 op == ">"
-                and lc
-                and rc
-                and lc.endswith(".projected_mem")
-                and rc.endswith(".allowed_mem")
-                and lc.rsplit(".", 1)[0] == rc.rsplit(".", 1)[0]
+                and isinstance(l, ast.Attribute)
+                and isinstance(r, ast.Attribute)
+                and l.attr == "projected_mem"
+                and r.attr == "allowed_mem"
+                and unparse(l.value, 200) == unparse(r.value, 200)
             ):
                 ok = True
         if not ok:
